@@ -382,3 +382,115 @@ pub fn closest_secure(table: &RoutingTable, target: Id) -> Vec<Node> {
 pub fn node_age_ns(node: &Node) -> u64 {
     node.0.last_seen.elapsed().as_nanos() as u64
 }
+
+// ------------------------------------------------------------------ state projection
+
+#[derive(Debug, Clone, serde::Serialize)]
+pub struct PutSnap {
+    pub target: String,
+    pub kind: String,
+    pub started: bool,
+    pub tids: Vec<u32>,
+    pub stored_at: u64,
+    /// (count, code) in the order kept by the query
+    pub errors: Vec<(u64, i32)>,
+    pub extra_nodes: usize,
+}
+
+#[derive(Debug, Clone, serde::Serialize)]
+pub struct QuerySnap {
+    pub target: String,
+    pub kind: String,
+    /// (id, address) in the accumulator's order
+    pub candidates: Vec<(String, String)>,
+    pub visited: Vec<String>,
+    pub tids: Vec<u32>,
+    pub live: usize,
+    pub responders: Vec<(String, String)>,
+    pub responses: usize,
+    pub votes: Vec<(String, u32)>,
+}
+
+#[derive(Debug, Clone, serde::Serialize)]
+pub struct NodeSnap {
+    pub bucket: u8,
+    pub id: String,
+    pub addr: String,
+    pub age_ns: u64,
+}
+
+#[derive(Debug, Clone, serde::Serialize)]
+pub struct TableSnap {
+    pub id: String,
+    pub nodes: Vec<NodeSnap>,
+    pub size: usize,
+    pub is_empty: bool,
+    pub dht_size_estimates_count: i64,
+    pub dht_size_estimates_sum: f64,
+    pub responders_samples_count: i64,
+    pub responders_size_estimates_sum: f64,
+    pub responders_subnets_sum: i64,
+}
+
+#[derive(Debug, Clone, serde::Serialize)]
+pub struct ServerSnap {
+    pub immutable: Vec<String>,
+    pub mutable: Vec<(String, i64)>,
+    pub peers: Vec<(String, usize)>,
+    pub signed_peers: Vec<(String, usize)>,
+}
+
+#[derive(Debug, Clone, serde::Serialize)]
+pub struct InflightSnap {
+    pub next_tid: u32,
+    pub total: usize,
+    pub live: usize,
+    pub timeout_ns: u64,
+    pub estimated_rtt_ns: u64,
+    pub deviation_rtt_ns: u64,
+    /// (tid, to, age_ns)
+    pub entries: Vec<(u32, String, u64)>,
+}
+
+#[derive(Debug, Clone, serde::Serialize)]
+pub struct CacheSnap {
+    pub target: String,
+    pub find_node: bool,
+    pub signed: bool,
+    pub nodes: usize,
+    pub tokens: usize,
+    pub dht_size_estimate: f64,
+    pub responders_dht_size_estimate: f64,
+    pub subnets: u8,
+}
+
+#[derive(Debug, Clone, serde::Serialize)]
+pub struct Snapshot {
+    pub now_ns: u64,
+    pub id: String,
+    pub local_port: u16,
+    pub server_mode: bool,
+    pub socket_server_mode: bool,
+    pub firewalled: bool,
+    pub public_address: Option<String>,
+    pub bootstrap: Vec<String>,
+    pub queries: Vec<QuerySnap>,
+    pub puts: Vec<PutSnap>,
+    pub put_senders: Vec<(String, usize)>,
+    pub get_senders: Vec<(String, usize)>,
+    pub inflight: InflightSnap,
+    pub cache: Vec<CacheSnap>,
+    pub routing_table: TableSnap,
+    pub signed_peers_routing_table: TableSnap,
+    pub server: ServerSnap,
+    pub last_table_refresh_age_ns: u64,
+    pub last_table_ping_age_ns: u64,
+}
+
+/// Ask a threaded node (through its normal message channel) for a [Snapshot]; the
+/// caller must keep granting ticks until the receiver yields.
+pub fn request_snapshot(dht: &crate::Dht) -> flume::Receiver<Snapshot> {
+    let (tx, rx) = flume::bounded::<Snapshot>(1);
+    dht.send(crate::actor::ActorMessage::VerifSnapshot(tx));
+    rx
+}
